@@ -397,6 +397,10 @@ pub fn pairs_of(p: &WPlan) -> Vec<(u64, f64)> {
 }
 
 pub fn gen_weights(rng: &mut Rng, n: usize, tiny: bool) -> Vec<f64> {
+    if tiny && rng.chance(0.35) {
+        // the very bottom: 1/w is so large that an item's race overflows before all registers are filled
+        return (0..n).map(|_| 2.3e-308 * (1.0 + rng.f64())).collect();
+    }
     if tiny {
         // [2.3e-308, 1e-300]
         return (0..n).map(|_| 2.3e-308 * (1.0 + rng.f64() * 100.0) * (2.0f64).powi(rng.range(0, 12) as i32)).collect();
@@ -702,14 +706,8 @@ impl Scenario for WStream {
                             ctx.count("fault:duplicate");
                         }
                     }
-                    // an iterator over a weighted *set* yields each object once
-                    let mut uniq = vec![];
-                    for i in vv {
-                        if !uniq.contains(i) {
-                            uniq.push(*i);
-                        }
-                    }
-                    node.wset(&get(&uniq));
+                    // the iterator may yield an object more than once (a repeated pair must change nothing)
+                    node.wset(&get(vv));
                     tracker_check(ctx, node.as_ref(), "hash_wset")?;
                 }
                 WEv::IdxMap(vv) => {
